@@ -532,6 +532,9 @@ func (in *Interp) useGroups(fn *ssa.Function, groups []mergeGroup, fromCache boo
 		}
 		gi = in.fork(conds)
 	}
+	if gi >= len(groups) {
+		panic(pathEnd{kind: endUnsupported, msg: "re-execution diverged at a merged call (callee not pure in its arguments)"})
+	}
 	g := groups[gi]
 	if g.out.kind != endDone {
 		panic(pathEnd{kind: g.out.kind, msg: g.out.msg, site: g.out.site})
